@@ -86,8 +86,7 @@ theorem totalNow_apply (c : Clk) (e : Ev) : (c.apply e).totalNow e.time = c.tota
     simp only [Clk.apply, Clk.resume, Clk.totalNow, Ev.time]
     split
     · rfl
-    · rename_i h
-      simp only [h, if_false]
+    · simp only
       split <;> simp_all
 
 theorem totalNow_advance (c : Clk) {T t : Nat} (h1 : c.us ≤ T) (h2 : T ≤ t) :
@@ -129,7 +128,7 @@ theorem cnt_zero_of_sorted {lo τ : Nat} (hτ : τ < lo) :
     have ih := cnt_zero_of_sorted (lo := e.time) (τ := τ) (by omega) rest hs.2
     have hne : ¬ e.time ≤ τ := by omega
     unfold cntS cntR at *
-    simp [List.countP_cons, hne, ih.1, ih.2]
+    simp [hne, ih.1, ih.2]
 
 theorem depthFrom_early {n lo τ : Nat} (hτ : τ < lo) (tl : List Ev) (hs : sortedFrom lo tl = true) :
     depthFrom n tl τ = n := by
